@@ -5,7 +5,7 @@
    remaining hypothesis decided by [last_hypb]. *)
 From VF Require Import Base.Prelude Gen.Enums Model.Graph Model.Insts Model.Perform Spec.WF
      Proofs.ListFacts Proofs.PerformInv Proofs.SkeletonInv Proofs.UntouchedProofs
-     Proofs.ReadersProofs Proofs.ReadersOrig Proofs.InstsSane Spec.LastOk.
+     Proofs.ReadersProofs Proofs.ReadersOrig Proofs.InstsSane Proofs.AloneProofs Spec.LastOk.
 
 Lemma insertb_spec i : insertb i = true <-> (i_trans i = Tr_ADD_QUANTIZE \/ i_trans i = Tr_ADD_DEQUANTIZE).
 Proof.
@@ -101,10 +101,10 @@ Proof.
     cbn [app]. f_equal. apply IH. reflexivity.
 Qed.
 
-(* the theorem with its hypotheses decided *)
-Theorem last_instruction_readers_checked m0 ps tis n m' :
+(* the theorem with its hypotheses decided; sanity of the instructions as a hypothesis *)
+Theorem last_checked_gen m0 tis n m' :
   Forall wf_sg (m_subgraphs m0) -> uids_ok m0 ->
-  insts_of_params m0 ps = Ok tis ->
+  (forall ti i, In ti tis -> In i (ti_insts ti) -> sane m0 (ti_sg ti) i) ->
   last_hypb m0 tis n = true ->
   transform_graph m0 tis = Ok m' ->
   exists pre ti0 post steps i0 k g0,
@@ -113,7 +113,7 @@ Theorem last_instruction_readers_checked m0 ps tis n m' :
     exists x' g', nth_opt (m_subgraphs m') k = Some g' /\ ntens g0 <= x' /\
                   readers_profile x' g' = moved_profile (i_tensor i0) (i_consumers i0) g0.
 Proof.
-  intros Hwf Hu Hgen Hb Hrun. unfold last_hypb in Hb.
+  intros Hwf Hu Hsane Hb Hrun. unfold last_hypb in Hb.
   destruct (split_at n tis) as [[[pre ti0] post]|] eqn:Esp; [|discriminate].
   destruct (split_last (ti_insts ti0)) as [[steps i0]|] eqn:Esl; [|discriminate].
   pose proof (split_at_app _ _ _ _ _ Esp) as Etis. pose proof (split_last_app _ _ _ Esl) as Eins.
@@ -129,7 +129,7 @@ Proof.
   split; [exact Eins|]. split; [exact Hsg|]. split; [exact Eg0|].
   subst tis.
   apply (last_instruction_readers m0 pre ti0 post m' (Z.to_nat (ti_sg ti0)) g0 steps i0 Hwf Hu).
-  - exact (insts_of_params_sane m0 ps _ Hgen).
+  - exact Hsane.
   - apply ids_okb_sound. exact Hb.
   - exact Eg0.
   - exact Hsg.
@@ -140,4 +140,108 @@ Proof.
   - apply ge_m1_spec. exact B0.
   - apply never_namesb_sound. exact B.
   - exact Hrun.
+Qed.
+
+Theorem last_instruction_readers_checked m0 ps tis n m' :
+  Forall wf_sg (m_subgraphs m0) -> uids_ok m0 ->
+  insts_of_params m0 ps = Ok tis ->
+  last_hypb m0 tis n = true ->
+  transform_graph m0 tis = Ok m' ->
+  exists pre ti0 post steps i0 k g0,
+    tis = pre ++ ti0 :: post /\ length pre = n /\ ti_insts ti0 = steps ++ [i0] /\
+    ti_sg ti0 = Z.of_nat k /\ nth_opt (m_subgraphs m0) k = Some g0 /\
+    exists x' g', nth_opt (m_subgraphs m') k = Some g' /\ ntens g0 <= x' /\
+                  readers_profile x' g' = moved_profile (i_tensor i0) (i_consumers i0) g0.
+Proof.
+  intros Hwf Hu Hgen. apply last_checked_gen; [exact Hwf|exact Hu|]. exact (insts_of_params_sane m0 ps _ Hgen).
+Qed.
+
+(* ---- instructions the performer skips (NO_QUANTIZE) can be dropped ---- *)
+Lemma actsb_update later prev np ot :
+  filter actsb (update_instructions later prev np ot) = update_instructions (filter actsb later) prev np ot.
+Proof.
+  unfold update_instructions. induction later as [|j r IH]; [reflexivity|]. cbn [map filter].
+  assert (E : actsb (if existsb (fun c => memZ c (i_consumers prev)) (i_consumers j)
+                     then {| i_trans := i_trans j; i_tensor := ot; i_producer := np; i_consumers := i_consumers j; i_params := i_params j |}
+                     else j) = actsb j) by (destruct (existsb _ _); reflexivity).
+  rewrite E. destruct (actsb j); cbn [map]; rewrite IH; reflexivity.
+Qed.
+
+Lemma apply_single_filter st sg i l :
+  apply_single st sg i (filter actsb l) = (r <- apply_single st sg i l ;; Ok (fst r, filter actsb (snd r))).
+Proof.
+  rewrite !apply_single_unfold.
+  destruct (py_index (ps_orig st) sg); cbn [bind]; [|reflexivity].
+  destruct (py_index (ps_added st) sg); cbn [bind]; [|reflexivity].
+  destruct (py_index (m_subgraphs (ps_model st)) sg); cbn [bind]; [|reflexivity].
+  destruct (resolve _ _ _); cbn [bind]; [|reflexivity].
+  destruct (mapM _ _); cbn [bind]; [|reflexivity].
+  destruct (trans_of _ _ _ _ _ _) as [[[[c b] g'] info]|]; cbn [bind]; [|reflexivity].
+  destruct (to_added info =? 0); cbn [bind fst snd]; [reflexivity|]. rewrite actsb_update. reflexivity.
+Qed.
+
+Lemma apply_single_length st sg i l st' l' : apply_single st sg i l = Ok (st', l') -> length l' = length l.
+Proof.
+  rewrite apply_single_unfold.
+  destruct (py_index (ps_orig st) sg); cbn [bind]; [|discriminate].
+  destruct (py_index (ps_added st) sg); cbn [bind]; [|discriminate].
+  destruct (py_index (m_subgraphs (ps_model st)) sg); cbn [bind]; [|discriminate].
+  destruct (resolve _ _ _); cbn [bind]; [|discriminate].
+  destruct (mapM _ _); cbn [bind]; [|discriminate].
+  destruct (trans_of _ _ _ _ _ _) as [[[[c b] g'] info]|]; cbn [bind]; [|discriminate].
+  destruct (to_added info =? 0); intros H; inversion H; subst; [reflexivity|]. unfold update_instructions. apply map_length.
+Qed.
+
+Lemma apply_insts_strip sg : forall fuel is st, (length is <= fuel)%nat ->
+  apply_insts st sg is fuel = apply_insts st sg (filter actsb is) (length (filter actsb is)).
+Proof.
+  induction fuel as [|f IH]; intros is st Hlen.
+  - destruct is as [|i later]; [reflexivity|cbn [length] in Hlen; lia].
+  - destruct is as [|i later]; [reflexivity|]. cbn [length] in Hlen. cbn [apply_insts filter].
+    destruct (is_insertion (i_trans i)) eqn:Ei.
+    + assert (Ea : actsb i = true) by (unfold actsb; rewrite Ei; reflexivity). rewrite Ea.
+      cbn [length apply_insts]. rewrite Ei. rewrite apply_single_filter.
+      destruct (apply_single st sg i later) as [[st1 l1]|] eqn:ES; cbn [bind fst snd]; [|reflexivity].
+      pose proof (apply_single_length _ _ _ _ _ _ ES) as Hl.
+      rewrite (IH l1 st1 ltac:(lia)).
+      assert (Hf : length (filter actsb l1) = length (filter actsb later)).
+      { pose proof (apply_single_filter st sg i later) as X. rewrite ES in X. cbn [bind fst snd] in X.
+        eapply apply_single_length. exact X. }
+      rewrite Hf. reflexivity.
+    + destruct (qtrans_eqb (i_trans i) Tr_EMULATED_SUBCHANNEL) eqn:Ee.
+      * assert (Ea : actsb i = true) by (unfold actsb; rewrite Ei, Ee; reflexivity). rewrite Ea.
+        cbn [length apply_insts]. rewrite Ei, Ee. reflexivity.
+      * assert (Ea : actsb i = false) by (unfold actsb; rewrite Ei, Ee; reflexivity). rewrite Ea.
+        apply IH. lia.
+Qed.
+
+Lemma apply_insts_strip_ti st ti :
+  apply_insts st (ti_sg (strip ti)) (ti_insts (strip ti)) (length (ti_insts (strip ti)))
+  = apply_insts st (ti_sg ti) (ti_insts ti) (length (ti_insts ti)).
+Proof. unfold strip. cbn [ti_sg ti_insts]. symmetry. apply apply_insts_strip. apply le_n. Qed.
+
+Lemma transform_graph_strip m tis : transform_graph m (map strip tis) = transform_graph m tis.
+Proof.
+  unfold transform_graph. f_equal. generalize (init_pstate m) as st. induction tis as [|ti r IH]; intros st; [reflexivity|].
+  cbn [map foldM]. rewrite apply_insts_strip_ti.
+  destruct (apply_insts st (ti_sg ti) (ti_insts ti) (length (ti_insts ti))); cbn [bind]; [apply IH|reflexivity].
+Qed.
+
+(* lists that hold NO_QUANTIZE instructions (a float reader beside quantized
+   readers): the hypotheses are decided on the list with those dropped *)
+Theorem last_instruction_readers_checked_skipping m0 ps tis n m' :
+  Forall wf_sg (m_subgraphs m0) -> uids_ok m0 ->
+  insts_of_params m0 ps = Ok tis ->
+  last_hypb m0 (map strip tis) n = true ->
+  transform_graph m0 tis = Ok m' ->
+  exists pre ti0 post steps i0 k g0,
+    map strip tis = pre ++ ti0 :: post /\ length pre = n /\ ti_insts ti0 = steps ++ [i0] /\
+    ti_sg ti0 = Z.of_nat k /\ nth_opt (m_subgraphs m0) k = Some g0 /\
+    exists x' g', nth_opt (m_subgraphs m') k = Some g' /\ ntens g0 <= x' /\
+                  readers_profile x' g' = moved_profile (i_tensor i0) (i_consumers i0) g0.
+Proof.
+  intros Hwf Hu Hgen Hb Hrun. apply last_checked_gen; [exact Hwf|exact Hu| |exact Hb|rewrite transform_graph_strip; exact Hrun].
+  intros ti' i Hti Hi. apply in_map_iff in Hti. destruct Hti as (ti & <- & Hti).
+  unfold strip in Hi |- *. cbn [ti_sg ti_insts] in *. apply filter_In in Hi. destruct Hi as [Hi _].
+  exact (insts_of_params_sane m0 ps _ Hgen ti i Hti Hi).
 Qed.
